@@ -1,6 +1,6 @@
 (* C16 — property theorems (statements only; proofs live in Proofs*.v). *)
 From Coq Require Import ZArith QArith Qabs List Bool.
-Require Import QV.C16.Model QV.C16.Spec QV.C16.Proofs QV.C16.Proofs2 QV.C16.Proofs3 QV.C16.Proofs4 QV.C16.Proofs5 QV.C16.Proofs_term.
+Require Import QV.C16.Model QV.C16.Spec QV.C16.Proofs QV.C16.Proofs2 QV.C16.Proofs3 QV.C16.Proofs4 QV.C16.Proofs5 QV.C16.Proofs_term QV.C16.Proofs6.
 Import ListNotations.
 Open Scope Z_scope.
 
@@ -131,6 +131,27 @@ Print Assumptions C16_limits_single_mode_refuted.
 Theorem C16_reject : forall c tbl p e, compile c tbl p = Err e -> forall o, compile c tbl p <> Ok o.
 Proof. exact reject_no_tables. Qed.
 Print Assumptions C16_reject.
+
+(* (6) "rejected with an error", not with a crash: for a program whose repetition counts are >= 1 and whose nodes
+   without waveform have children (`pos`), for every fuel, configuration and waveform table, the compiler model never
+   returns ECrash (the model's name for AttributeError / RuntimeError / IndexError of the real code): every sequence
+   table that reaches the parser consists of leaves carrying a waveform, split_one_child always finds a child to split
+   when _check_partial_unroll calls it, every recorded waveform index lies inside waveform_to_segment *)
+Theorem C16_no_crash : forall ff pf c tbl prog, pos prog = true -> compile_with ff pf c tbl prog <> Err ECrash.
+Proof. exact compile_no_crash. Qed.
+Print Assumptions C16_no_crash.
+
+(* ... and the guard `pos` is needed: with a repetition count 0 a node can lose all its children in
+   flatten_and_balance and reaches the parser as a leaf without waveform (known finding zero_count_empties_table:
+   the real code raises AttributeError instead of a TaborException) *)
+Theorem C16_no_crash_zero_count_refuted :
+  exists c tbl prog, good prog = true /\ compile c tbl prog = Err ECrash.
+Proof. exists (ex_cfg 1 4), ex_tbl, ex_zero. exact zero_count_crashes. Qed.
+Print Assumptions C16_no_crash_zero_count_refuted.
+
+Theorem C16_no_crash_nonvacuous : pos ex_prog = true /\ good ex_prog = true.
+Proof. split; reflexivity. Qed.
+Print Assumptions C16_no_crash_nonvacuous.
 
 (* non-vacuity: a good depth-3 program that needs encapsulation, merging, neighbour unrolling and partial unrolling is
    accepted in advanced mode with limits (3, 5); its tables played by `expand` equal `spec`, all limits hold *)
